@@ -52,7 +52,26 @@ def add_import_surface(rng, ir):
             pkgfiles[pkg_file_key(pname, "extra.xml")] = \
                 G.render_component([extra])
             imports.append(("package", pname, "extra.xml"))
-        pkgfiles[pkg_file_key(pname)] = G.render_component([t], imports)
+        own = [t]
+        if k == 0:
+            # a component type that EXTENDS an application type owning a
+            # keyed-default wildcard key, under another key type: the
+            # derived type re-normalises its own copy of those defaults
+            bases = [bt for bt in ir["types"] if bt["kind"] == "concrete"
+                     and any(i["name"] == "+" and i["kind"] in
+                             ("key", "multikey") and i.get("default")
+                             for i in G.all_items(ir, bt["name"]))]
+            if bases and rng.random() < 0.6:
+                bt = rng.choice(bases)
+                kt0 = G.keytype_of(ir, bt["name"])
+                kt = rng.choice([x for x in ("basic-key", "identifier")
+                                 if x != kt0] or ["identifier"])
+                te = {"name": "pte0", "kind": "concrete",
+                      "extends": bt["name"], "implements": "abx",
+                      "keytype": kt, "datatype": None, "items": []}
+                own.append(te)
+                ctypes[pname] = [t, te]
+        pkgfiles[pkg_file_key(pname)] = G.render_component(own, imports)
     if rng.random() < 0.2:
         # a component with a mistake that the schema machinery does not
         # notice: a datatype name that resolves to a MODULE
@@ -75,7 +94,7 @@ def import_lines(rng, packages, ctypes, names):
                 for _ in range(rng.randint(0, 2)):
                     nm = "in%d" % len(names)
                     names.append(nm)
-                    if rng.random() < 0.5:
+                    if rng.random() < 0.5 or not t["items"]:
                         out.append({"t": "<%s %s/>" % (t["name"], nm),
                                     "role": "empty", "type": t["name"],
                                     "name": nm, "slot": "*", "multi": True})
